@@ -30,54 +30,38 @@ mut("c17_sustain_scratch_module_level", "C17", [
 def complex_sustain_from_parsed_datas(datas: Sequence[NoteEvent.ParsedData]) -> ComplexSustain:'''),
 ], "a context switch between filling and reading the shared scratch list (two threads parsing)")
 
-mut("c17_triplet_threshold_first_resolution", "C17", [
+mut("c17_resolution_cached_by_object_id", "C17", [
     ("chartparse/instrument.py",
-     '''        eighth_triplet_tick_boundary = chartparse.tick.note_duration_to_ticks(
-            resolution, NoteDuration.EIGHTH_TRIPLET
-        )''',
-     '''        global _eighth_triplet_tick_boundary
-        if _eighth_triplet_tick_boundary is None:
-            _eighth_triplet_tick_boundary = chartparse.tick.note_duration_to_ticks(
-                resolution, NoteDuration.EIGHTH_TRIPLET
-            )
-        eighth_triplet_tick_boundary = _eighth_triplet_tick_boundary'''),
+     '''        hopo_state = NoteEvent._compute_hopo_state(
+            bpm_events.resolution,''',
+     '''        hopo_state = NoteEvent._compute_hopo_state(
+            _resolution_by_id.setdefault(id(bpm_events), bpm_events.resolution),'''),
     ("chartparse/instrument.py",
+     '''_SustainList = typ.NewType("_SustainList", list[Ticks | None])''',
+     '''_resolution_by_id: dict[int, int] = {}
+
+_SustainList = typ.NewType("_SustainList", list[Ticks | None])'''),
+], "history: a cache keyed by id(object); after the first chart is freed a later chart's tempo map reuses the id and inherits the other chart's resolution (HOPO threshold)")
+
+mut("c17_metadata_kwargs_module_level", "C17", [
+    ("chartparse/metadata.py",
+     '''        kwargs: _FieldValuesDict = dict()
+
+        lines = list(lines_iter)''',
+     '''        kwargs = _kwargs
+
+        lines = list(lines_iter)'''),
+    ("chartparse/metadata.py",
      '''@typ.final
-@enum.unique
-class HOPOState(Enum):''',
-     '''_eighth_triplet_tick_boundary: int | None = None
+@dataclasses.dataclass(frozen=True, kw_only=True)
+class Metadata(DictPropertiesEqMixin, DictReprMixin):''',
+     '''_kwargs: _FieldValuesDict = dict()
 
 
 @typ.final
-@enum.unique
-class HOPOState(Enum):'''),
-], "a history of two charts with different resolutions and a note gap between the two thresholds")
-
-mut("c17_memo_keyed_on_duration_only", "C17", [
-    ("chartparse/tick.py",
-     '''@functools.lru_cache
-def note_duration_to_ticks(resolution: Ticks, note_duration: NoteDuration) -> Ticks:''',
-     '''_note_duration_memo: dict[NoteDuration, Ticks] = {}
-
-
-def note_duration_to_ticks(resolution: Ticks, note_duration: NoteDuration) -> Ticks:'''),
-    ("chartparse/tick.py",
-     '''    return Ticks(round(resolution / note_duration.value))''',
-     '''    if note_duration not in _note_duration_memo:
-        _note_duration_memo[note_duration] = Ticks(round(resolution / note_duration.value))
-    return _note_duration_memo[note_duration]'''),
-], "history: memo keyed on part of its arguments (first resolution wins)")
-
-mut("c17_parsed_data_map_shared_default", "C17", [
-    ("chartparse/track.py",
-     '''    def __init__(self) -> None:
-        self._dict: collections.defaultdict[typ.Any, typ.Any] = collections.defaultdict(list)''',
-     '''    def __init__(
-        self,
-        _dict: collections.defaultdict[typ.Any, typ.Any] = collections.defaultdict(list),
-    ) -> None:
-        self._dict = _dict'''),
-], "mutable default argument: data of earlier sections/parses leaks into later ones", also=("C06", "C13", "C14", "C11", "C15", "C18"))
+@dataclasses.dataclass(frozen=True, kw_only=True)
+class Metadata(DictPropertiesEqMixin, DictReprMixin):'''),
+], "history: optional metadata fields absent from a chart inherit the value of an earlier chart")
 
 mut("c17_hint_cursor_module_global_not_reset", "C17", [
     ("chartparse/instrument.py",
